@@ -220,7 +220,12 @@ def compile_fn(fn: Fn, glob: dict, exact: bool = True):
         g.setdefault("__vt_lit__", lit)
         g.setdefault("__builtins__", __builtins__)
         exec(code, g)
-        return g[fn.owner].__dict__[name] if fn.owner else g[name]
+        if fn.owner:
+            out = g[fn.owner].__dict__[name]
+            if fn.owner in glob:
+                g[fn.owner] = glob[fn.owner]   # the real binding of the owner's name stays visible to the body
+            return out
+        return g[name]
     raise Unsupported(f"cannot compile node type {type(node).__name__}")
 
 
@@ -234,3 +239,103 @@ def compile_expr(node: ast.AST, glob: dict, path: str, exact: bool = True):
     g = dict(glob)
     g.setdefault("__vt_lit__", lit)
     return eval(compile(e, f"<extracted expr {path}>", "eval"), g)
+
+
+# ---------------------------------------------------------------- class re-assembly
+
+_KEEP_DECORATORS = ("property", "staticmethod", "classmethod", "abstractmethod")
+
+
+def _module_path_of(path: str, level: int, module: str | None) -> str:
+    """Resolve a relative import seen in `path` to a repo-relative file or package path (without suffix)."""
+    parts = path.split("/")[:-1]
+    if level > 1:
+        parts = parts[: len(parts) - (level - 1)]
+    if module:
+        parts += module.split(".")
+    return "/".join(parts)
+
+
+def import_map(path: str) -> dict:
+    """name -> ('module', file) or ('name', file, original name) for relative imports of `path`."""
+    _, tree = read(path)
+    out = {}
+    for n in tree.body:
+        if isinstance(n, ast.ImportFrom) and n.level >= 1:
+            base = _module_path_of(path, n.level, n.module)
+            for a in n.names:
+                nm = a.asname or a.name
+                cand_mod = os.path.join(REPO, base, a.name + ".py")
+                if os.path.exists(cand_mod):
+                    out[nm] = ("module", f"{base}/{a.name}.py")
+                elif os.path.exists(os.path.join(REPO, base + ".py")):
+                    out[nm] = ("name", base + ".py", a.name)
+                elif os.path.exists(os.path.join(REPO, base, "__init__.py")):
+                    out[nm] = ("name", base + "/__init__.py", a.name)
+    return out
+
+
+_assembled: dict = {}
+ASSEMBLED_LOG: dict = {}
+
+
+def assemble_class(path: str, clsname: str, glob_for, exact: bool = True, skip=("__init__",)):
+    """Re-assemble class `clsname` of `path` (and, recursively, its bases defined in /repo) from the
+    extracted, transformed method ASTs.  `glob_for(path)` gives the globals for code of that file.
+    Only decorators in _KEEP_DECORATORS (and `x.setter`) are kept.  `__init__` is skipped: instances are
+    created with object.__new__ and the contract sets the private fields it needs."""
+    key = (path, clsname, exact)
+    if key in _assembled:
+        return _assembled[key]
+    src, tree = read(path)
+    cls = find_class(tree, clsname)
+    if cls is None:
+        raise Unsupported(f"class {clsname} not found in {path}")
+    imap = import_map(path)
+    bases = []
+    for b in cls.bases:
+        bs = ast.unparse(b)
+        if isinstance(b, ast.Name):
+            if find_class(tree, b.id) is not None:
+                bases.append(assemble_class(path, b.id, glob_for, exact, skip))
+            elif b.id in imap and imap[b.id][0] == "name":
+                bases.append(assemble_class(imap[b.id][1], imap[b.id][2], glob_for, exact, skip))
+            elif b.id in ("ABC", "object"):
+                continue
+            else:
+                raise Unsupported(f"base {bs} of {clsname} cannot be resolved")
+        elif isinstance(b, ast.Attribute) and isinstance(b.value, ast.Name) and b.value.id in imap and imap[b.value.id][0] == "module":
+            bases.append(assemble_class(imap[b.value.id][1], b.attr, glob_for, exact, skip))
+        else:
+            raise Unsupported(f"base {bs} of {clsname} cannot be resolved")
+    body = []
+    lines = src.splitlines()
+    for n in cls.body:
+        if isinstance(n, ast.FunctionDef) and n.name not in skip:
+            m = copy.deepcopy(n)
+            _annotate_float_sources(m, lines)
+            decs = []
+            for d in m.decorator_list:
+                ds = ast.unparse(d)
+                if ds in _KEEP_DECORATORS or ds.endswith(".setter"):
+                    decs.append(d)
+            m = _Strip(exact).visit(m)
+            m.decorator_list = decs
+            body.append(m)
+    if not body:
+        body = [ast.Pass()]
+    cdef = ast.ClassDef(name=clsname, bases=[ast.Name(id=f"__base{i}__", ctx=ast.Load()) for i in range(len(bases))],
+                        keywords=[], body=body, decorator_list=[], type_params=[])
+    mod = ast.Module(body=[cdef], type_ignores=[])
+    ast.fix_missing_locations(mod)
+    g = dict(glob_for(path))
+    g.setdefault("__vt_lit__", lit)
+    for i, b in enumerate(bases):
+        g[f"__base{i}__"] = b
+    exec(compile(mod, f"<assembled {path}::{clsname}>", "exec"), g)
+    out = g[clsname]
+    seg = ast.get_source_segment(src, cls) or ""
+    ASSEMBLED_LOG[f"{path}::{clsname}"] = dict(file=path, cls=clsname, lines=[cls.lineno, cls.end_lineno],
+                                               sha256=hashlib.sha256(seg.encode()).hexdigest())
+    _assembled[key] = out
+    return out
